@@ -415,10 +415,15 @@ func NewConfig(u *Universe, log *Log, b Build) (*eval.Config, string) {
 
 // registerPure registers the custom operators without any logging or state, so that
 // a config / program using them can be shared between goroutines (c_cnt is a constant 0).
+var pureCalls uint32
+
 func registerPure(cc *eval.Config) {
 	for name, f := range customModel() {
 		f := f
 		cc.OperatorMap[name] = func(_ *eval.Ctx, params []eval.Value) (eval.Value, error) {
+			if atomic.AddUint32(&pureCalls, 1)%2 == 0 {
+				runtime.Gosched() // a yield point inside Compile (folding) and inside evaluations: affects the schedule only
+			}
 			args := make([]interface{}, len(params))
 			for i, p := range params {
 				args[i] = p
